@@ -18,6 +18,7 @@ import Driver.OpsLeafQ
 import Driver.OpsGraphIo
 import Driver.OpsStruct4
 import Driver.OpsStruct5
+import Driver.OpsEmBackward
 /-
 Line-protocol driver: one JSON object per input line, one answer line per input line.
 Run with `lake env lean --run Driver/Main.lean < ops.jsonl`.
@@ -94,7 +95,8 @@ def handle (st : St) (j : Json) : Except String (St × String) := do
       handleLeafQ o j,
       handleGraphIo o j,
       handleStruct4 st.net o j,
-      handleStruct5 o j ]
+      handleStruct5 o j,
+      handleEmBackward st.net st.root o j ]
     match exts.findSome? id with
     | some r => do let a ← r; pure (st, a)
     | none => .error s!"unknown op {o}"
